@@ -437,6 +437,14 @@ impl Mempool {
         for (_, transaction) in &self.transactions {
             self.routing_work_in_mempool += transaction.total_work_for_me;
         }
+
+        // the input reservations follow the pool as well
+        self.utxo_map.clear();
+        for (_, transaction) in &self.transactions {
+            for input in transaction.from.iter() {
+                self.utxo_map.insert(input.utxoset_key, 1);
+            }
+        }
     }
 
     ///
